@@ -25,9 +25,9 @@ def collect_cases(paths):
 def run(ctx, prop, bias):
     # 1. design level: the implementation-shaped model refines the contract (all clauses), plus the
     #    liveness clause and the sensitivity configurations that must FAIL (non-vacuity of the model)
-    ctx.model_check("attack", "Attack", "MCAttackThorough.cfg" if ctx.thorough else "MCAttack.cfg", timeout=3000)
+    ctx.model_check("attack", "Attack", "MCAttackThorough.cfg" if ctx.thorough else "MCAttack.cfg", timeout=3000, coverage=ctx.thorough)
     if prop in ("C02", "C04"):
-        ctx.model_check("attack", "Attack", "MCAttackLive.cfg")
+        ctx.model_check("attack", "Attack", "MCAttackLive.cfg", coverage=ctx.thorough)
     sens = []
     if prop == "C02":
         r = ctx.model_check("attack", "Attack", "MCAttackOldStop.cfg", expect_ok=False)
